@@ -18,7 +18,7 @@
     inHead         chars/start other/end(html,body,br) → afterHead           (pop head;  assert name == "head")
     inHeadNoscript chars/start other/end(br)  → inHead                       (pop noscript; assert)
     afterHead      chars/start other/end(html,body,br) → inBody              (push body)
-    inBody         <button> with button in scope → same phase, pop           (via phases["inBody"].processEndTag)
+    inBody         (<button> with a button in scope no longer hands the token back: repo fix 6523d65)
     inBody         </html> with body in scope → afterBody                    (otherwise the token is dropped)
     afterBody      chars / start other / end other → inBody;  afterAfterBody likewise
     inTable        <col> → inColumnGroup (push colgroup);  <td>/<th>/<tr> → inTableBody (push tbody)
